@@ -1,0 +1,5 @@
+//go:build verif
+
+package builtin
+
+func VerifReload() error { return loadBuiltinFromJSON() }
